@@ -274,6 +274,10 @@ func checkNonceRegister(c *core.Ctx, rule string) {
 		}
 	}
 	c.Floor(rule+".removals", nRem, 1, "tree removals in the accounts module (the zero-balance removal must be seen)")
+	// … and not through a genesis export either: Accounts.Export may leave an account out only
+	// when its nonce is 0 (on every path from the point where the exported record is built to a
+	// return that skips the append, the `acc.Nonce == 0` edge is taken)
+	checkExportKeepsNonce(c, rule)
 	// the read-only interface method used by the gate resolves to this implementation
 	mods := Modules(c)
 	found := false
@@ -283,4 +287,72 @@ func checkNonceRegister(c *core.Ctx, rule string) {
 		}
 	}
 	c.Check(found, rule, "RAccounts.GetNonce", token.NoPos, "CheckState.Accounts() exposes GetNonce of the same *accounts.Accounts the deliver state writes", "RAccounts does not expose GetNonce of the deliver-state accounts module")
+}
+
+func checkExportKeepsNonce(c *core.Ctx, rule string) {
+	exp := c.MustFn(rule, "(*coreV2/state/accounts.Accounts).Export")
+	if exp == nil {
+		return
+	}
+	n := 0
+	for _, fn := range exp.AnonFuncs {
+		// the block where the exported record receives its nonce, and the append site
+		var built, appended *ssa.BasicBlock
+		for _, b := range fn.Blocks {
+			for _, in := range b.Instrs {
+				switch x := in.(type) {
+				case *ssa.Store:
+					if fa, ok := x.Addr.(*ssa.FieldAddr); ok && fieldNameOf(fa) == "Nonce" && strings.HasSuffix(fa.X.Type().String(), "types.Account") {
+						built = b
+					}
+				case *ssa.Call:
+					if bi, ok := x.Call.Value.(*ssa.Builtin); ok && bi.Name() == "append" && strings.HasSuffix(core.Path(x.Call.Args[0]), ".Accounts") {
+						appended = b
+					}
+				}
+			}
+		}
+		if built == nil || appended == nil {
+			continue
+		}
+		n++
+		bad := ""
+		var dfs func(b *ssa.BasicBlock, nonceZero bool, seen map[*ssa.BasicBlock]bool)
+		dfs = func(b *ssa.BasicBlock, nonceZero bool, seen map[*ssa.BasicBlock]bool) {
+			if bad != "" || b == appended || seen[b] {
+				return
+			}
+			seen[b] = true
+			defer func() { seen[b] = false }()
+			if len(b.Instrs) > 0 {
+				if r, ok := b.Instrs[len(b.Instrs)-1].(*ssa.Return); ok {
+					if !nonceZero {
+						bad = c.PosStr(r.Pos())
+					}
+					return
+				}
+			}
+			iff := core.IfOf(b)
+			for i, s := range b.Succs {
+				nz := nonceZero
+				if iff != nil {
+					if bin, ok := iff.Cond.(*ssa.BinOp); ok && (bin.Op == token.EQL || bin.Op == token.NEQ) {
+						if k, ok := core.ConstInt(bin.Y); ok && k == 0 {
+							if ld, ok := core.Unwrap(bin.X).(*ssa.UnOp); ok {
+								if fa, ok := ld.X.(*ssa.FieldAddr); ok && fieldNameOf(fa) == "Nonce" {
+									if (bin.Op == token.EQL) == (i == 0) {
+										nz = true
+									}
+								}
+							}
+						}
+					}
+				}
+				dfs(s, nz, seen)
+			}
+		}
+		dfs(built, false, map[*ssa.BasicBlock]bool{})
+		c.Check(bad == "", rule, "Export/keeps-nonce", fn.Pos(), "an account is left out of the genesis only when its nonce is 0", "Accounts.Export can skip an account whose nonce is not 0 (return at "+bad+"): a chain started from that genesis gives the account nonce 0 again and every transaction it ever signed is valid once more")
+	}
+	c.Floor(rule+".export", n, 1, "account export closures")
 }
